@@ -320,7 +320,10 @@ def do_history(run, impl, wd, name, crc, ops, nfirst, nlater, rec_kills, corpus_
                 run.dist("second_session")
                 why2 = judge_continuation(recline, contres)
                 if why2:
-                    ok, why, cl = False, why2, "second-session"
+                    # a torn main file left by a growth-forced checkpoint may still LOOK like a prefix state and only
+                    # break when the next session works on it: same known finding
+                    g = growth_class(ops, full, k)
+                    ok, why, cl = False, why2, (g if g == "growth-checkpoint" else "second-session")
             if ok:
                 continue
         if cl is None:
@@ -332,9 +335,9 @@ def do_history(run, impl, wd, name, crc, ops, nfirst, nlater, rec_kills, corpus_
         if run.cov["violations_by_class"][cl] > 2:
             continue
         run.violation({"ops": ops, "crc": crc, "killat": k, "effects": N, "rec_kill": rk, "class": cl,
-                       "second_session": SESSION2 if cl == "second-session" else None,
+                       "second_session": SESSION2 if contres is not None else None,
                        "admissible_prefixes": list(rng_), "impl": recline[:3000], "recovered": got,
-                       "final": (contres or {}).get("final", "")[:1500] if cl == "second-session" else None}, why)
+                       "final": (contres or {}).get("final", "")[:1500] if contres is not None else None}, why)
     shutil.rmtree(d, ignore_errors=True)
     return full
 
@@ -384,7 +387,7 @@ def replay(run, path):
         k = r["killat"]
         if r.get("effects") is not None and k == r["effects"]:
             k = full["nfx"]
-        cont = r.get("class") == "second-session"
+        cont = bool(r.get("second_session"))
         res = crash_cases(run, impl, wd, "r", r["crc"], ops, [(k, r.get("rec_kill"), cont)])[0]
         ok, why, rng_, got = judge(ops, ref_states(ops), res[0], res[1])
         if ok and cont and res[3] is not None:
